@@ -236,10 +236,22 @@ func run(sc *scenario) (string, outcome) {
 					if err != nil {
 						report(fmt.Sprintf("writer %d op %d returned %v", wi, k, err))
 					}
-					if sc.toggle && wi == 0 && k%7 == 3 {
-						f.Add(ipnet(prefix{0, 0}))
-						f.Remove(ipnet(prefix{0x12345678, 0}))
+					// writer 0 also toggles 0.0.0.0/0: sometimes on and off at once, sometimes on for its next few updates
+					// (what is added or removed while everything matches must still be right once 0.0.0.0/0 is gone)
+					if sc.toggle && wi == 0 {
+						switch {
+						case k%7 == 3 && k%2 == 0:
+							f.Add(ipnet(prefix{0, 0}))
+							f.Remove(ipnet(prefix{0x12345678, 0}))
+						case k%7 == 3:
+							f.Add(ipnet(prefix{0, 0}))
+						case k%7 == 6:
+							f.Remove(ipnet(prefix{0x12345678, 0}))
+						}
 					}
+				}
+				if sc.toggle && wi == 0 {
+					f.Remove(ipnet(prefix{0, 0})) // whatever the script's last steps were: 0.0.0.0/0 is off at the end
 				}
 			})
 		}(wi, script)
